@@ -94,7 +94,7 @@ Qed.
 Lemma bij_on_id n : bij_on n (fun i => i).
 Proof. split; auto. Qed.
 Lemma bij_on_comp n p q : bij_on n p -> bij_on n q -> bij_on n (fun i => p (q i)).
-Proof. intros [P1 P2] [Q1 Q2]. split; intros; auto. apply Q2; auto. Qed.
+Proof. intros [P1 P2] [Q1 Q2]. split; intros; auto. Qed.
 (* a left inverse on [0,n) that stays in range is a bijection, and so is the map itself *)
 Lemma bij_on_of_inverse n p q : (forall i, i < n -> p i < n) -> (forall i, i < n -> q i < n) ->
   (forall i, i < n -> q (p i) = i) -> bij_on n p.
@@ -110,7 +110,7 @@ Lemma fkron_ext d1 d2 A A' B B' : feq d1 A A' -> feq d2 B B' ->
   feq (d1 * d2) (fkron d2 A B) (fkron d2 A' B').
 Proof.
   intros HA HB i j Hi Hj. unfold fkron.
-  rewrite HA, HB; auto using div_lt_prod, mod_lt_prod; eapply mod_lt_prod; eauto.
+  rewrite HA, HB; try (apply div_lt_prod; assumption); try (eapply mod_lt_prod; eassumption). reflexivity.
 Qed.
 
 (* (A (x) B)(C (x) D) = AC (x) BD, at every index pair *)
